@@ -83,7 +83,9 @@ def ValidRanges : List KeyRange → Prop
   | [r] => r.end_ = [] ∨ Bytes.lt r.start r.end_ = true
   | r :: r' :: rest => Bytes.lt r.start r.end_ = true ∧ Bytes.le r.end_ r'.start = true ∧ ValidRanges (r' :: rest)
 
-/-- full statement for BatchLocateKeyRanges: the locations cover every requested range.  FALSE (S8): see below. -/
+/-- full statement for BatchLocateKeyRanges: the locations cover every requested range (any cache state, any PD).
+    Not proved in this generality; see `batch_lookup_gap_free_partial`.  (Before /repo commit 5462de8 it was FALSE:
+    the merger dropped a cached region with an unbounded end key — finding S8, witness `s8_regression` below.) -/
 def batch_lookup_gap_free : Prop :=
   ∀ (fuel : Nat) (c c' : Cache) (pd : PD) (ranges : List KeyRange) (ls : List Region),
     (∀ p ∈ pd, p.r.wf) → ValidRanges ranges →
@@ -95,21 +97,11 @@ def pd3 : PD :=
 /-- the cache after `LocateKey("u")` on a cold cache: only the last region [t, +∞) -/
 def warmLast : Cache := (locateKey Cache.empty pd3 [117]).1
 
-/-- S8: with [t,+∞) cached and the rest not, the ranges [a,b), [u,+∞) come back as [-∞,g) only: the merger's
-    `bytes.Compare(*lastEndKey, cached.EndKey()) >= 0` is true for the empty (unbounded) cached end key, so the cached
-    last region is dropped and no location contains "u". -/
-theorem not_batch_lookup_gap_free : ¬ batch_lookup_gap_free := by
-  intro h
-  have hc := h 20 warmLast (batchLocateKeyRanges 20 warmLast pd3 [⟨[97], [98]⟩, ⟨[117], []⟩]).1 pd3
-    [⟨[97], [98]⟩, ⟨[117], []⟩] [⟨1, [], some [103], 1, 0⟩]
-    (by intro p hp; simp [pd3] at hp; rcases hp with rfl | rfl | rfl <;> simp [Region.wf] <;> decide)
-    (by refine ⟨by decide, by decide, Or.inl rfl⟩)
-    rfl ⟨[117], []⟩ (by simp)
-  obtain ⟨l, hl, hlc⟩ := hc [117] (le_refl _) (Or.inl rfl)
-  simp only [List.mem_singleton] at hl
-  subst hl
-  revert hlc
-  decide
+/-- the S8 scenario on the repaired merger: with [t,+∞) cached and the rest not, the ranges [a,b), [u,+∞) now come
+    back as [-∞,g) followed by the cached [t,+∞) -/
+theorem s8_regression :
+    (batchLocateKeyRanges 20 warmLast pd3 [⟨[97], [98]⟩, ⟨[117], []⟩]).2 =
+      .ok [⟨1, [], some [103], 1, 0⟩, ⟨3, [116], none, 1, 0⟩] := rfl
 
 /-! ## no regression -/
 
